@@ -8,6 +8,7 @@ import FlVerif.Lemmas.CodeFunctionParse
 import FlVerif.Lemmas.FormatInfix
 import FlVerif.Lemmas.CodeFunEval
 import FlVerif.Lemmas.CodeFunEvalParse
+import FlVerif.Lemmas.CodeBlockActFactory   -- the factories (`construct`, `copy`, `operators`, `functions`, `_precedence`)
 
 /-! # C17 — Function formulas follow the documented precedence and associativity
 
@@ -124,6 +125,58 @@ theorem code_parsePostfix (tbl : Table) (formula : String) :
     | .error e => Gen.Code.Function_parse.run tbl formula {} = .error e.toPy
     | .ok r => ∃ σ, Gen.Code.Function_parse.run tbl formula {} = .ok σ ∧ σ.ret = some r.toNode :=
   CodeFn.code_parsePostfix tbl formula
+
+/-! ### the factories (`fuzzylite/factory.py`, `Gen/CodeFactory.lean`)
+
+The translations above read the element table through `factory.objects.get` / `factory.objects[…]` / `factory.copy` as
+look-ups `Lang.Table.lookup`; `Op.formatInfix` reads `factory.operators()`.  The methods of the factories themselves: -/
+
+/-- **Tie A (code → model).**  `ConstructionFactory.construct(key)` on any dictionary of constructors `cs` (a list of
+    items; `call c` is what `c(**kwargs)` returns or raises): the constructor registered under the key is called, an
+    unregistered key is a `ValueError` (`Py.BlockAct.construct`).  For a factory that registers every class under its
+    own name (`Py.BlockAct.registered keys`, the lists `Gen.Tables.*Keys`) this is the membership test of the importer
+    model: `construct_registered` below. -/
+theorem code_factoryConstruct {C T : Type} [Inhabited C] [Inhabited T] (cs : List (String × C)) (call : C → Py.M T)
+    (key : String) :
+    match Py.BlockAct.construct cs call key with
+    | .error e => Gen.Code.ConstructionFactory_construct.run cs call key {} = .error e
+    | .ok v => ∃ σ, Gen.Code.ConstructionFactory_construct.run cs call key {} = .ok σ ∧ σ.ret = some v :=
+  Py.BlockAct.code_factoryConstruct cs call key
+
+theorem construct_registered {T : Type} (keys : List String) (call : String → Py.M T) (key : String) :
+    Py.BlockAct.construct (Py.BlockAct.registered keys) call key = if key ∈ keys then call key else .error .value :=
+  Py.BlockAct.construct_registered keys call key
+
+/-- **Tie A (code → model).**  `CloningFactory.copy(key)` on the element table is `Py.copyElem` - the element
+    `Lang.Table.lookup` finds, `ValueError` for an unregistered name -, the external of `code_parsePostfix`. -/
+theorem code_factoryCopy (tbl : Table) (key : String) :
+    match Py.copyElem tbl key with
+    | .error e => Gen.Code.CloningFactory_copy.run tbl key {} = .error e
+    | .ok v => ∃ σ, Gen.Code.CloningFactory_copy.run tbl key {} = .ok σ ∧ σ.ret = some v :=
+  Py.BlockAct.code_factoryCopy tbl key
+
+/-- **Tie A (code → model).**  `FunctionFactory.operators()`: the items of the rows with the operator flag, in the
+    order of the table; its keys are `Lang.Table.operators` (what `Op.formatInfix` reads). -/
+theorem code_operators (tbl : Table) :
+    ∃ σ r, Gen.Code.FunctionFactory_operators.run tbl {} = .ok σ ∧ σ.ret = some r ∧
+      r = (tbl.filter (·.2.1)).map (fun row => (row.1, Elem.ofRow row)) ∧ r.map (·.1) = tbl.operators :=
+  Py.BlockAct.code_operators tbl
+
+/-- **Tie A (code → model).**  `FunctionFactory.functions()`: the rows without the operator flag. -/
+theorem code_functions (tbl : Table) :
+    ∃ σ r, Gen.Code.FunctionFactory_functions.run tbl {} = .ok σ ∧ σ.ret = some r ∧
+      r = (tbl.filter (!·.2.1)).map (fun row => (row.1, Elem.ofRow row)) ∧ r.map (·.1) = tbl.functions :=
+  Py.BlockAct.code_functions tbl
+
+/-- **Tie A (code → model).**  `FunctionFactory._precedence(importance)` = `100 - 10 * importance`. -/
+theorem code_precedence (importance : Nat) :
+    ∃ σ, Gen.Code.FunctionFactory_precedence.run importance {} = .ok σ ∧
+      σ.ret = some (100 - 10 * (importance : Int)) :=
+  Py.BlockAct.code_precedence importance
+
+/-- every precedence of the regenerated table is a value of the helper at an importance 0 … 10 -/
+theorem table_precedences : Py.BlockAct.precedencesFromHelper Gen.Tables.elements = true :=
+  Py.BlockAct.table_precedences
 
 /-- **Tie A (code → model).**  `Gen.Code.Node_evaluate` is regenerated from the source of `Function.Node.evaluate`
     on every run (the recursion over the tree with a bound on its depth, which is never exhausted; values are any
